@@ -57,6 +57,13 @@ template <typename V, typename L, typename A> std::string fmt_with(const V& v, L
 }
 } // namespace proto
 
+// Opt-in hook events (DESIGN.md §8 Hooks): a harness compiled with -DPROTO_VERIF_EVENTS gets every
+// NMTOOLS_VERIF_EVENT of the library appended to the answer line as ` events=<kind>:<count>,…`
+#ifdef PROTO_VERIF_EVENTS
+namespace proto { inline long long g_events[8] = {0,0,0,0,0,0,0,0}; }
+extern "C" void nmtools_verif_event(int kind, long long, long long) { if (kind>=0 && kind<8) proto::g_events[kind]++; }
+#endif
+
 // each harness TU defines this; return "unknown-op" for ops it does not serve
 std::string handle(const std::string& op, const proto::Args& a);
 
@@ -70,9 +77,16 @@ int main() {
         proto::Args a; std::string kv;
         while (is >> kv) { auto p = kv.find('='); if (p!=std::string::npos) a[kv.substr(0,p)] = kv.substr(p+1); }
         std::string ans;
+#ifdef PROTO_VERIF_EVENTS
+        for (auto& e : proto::g_events) e = 0;
+#endif
         try { ans = handle(op, a); }
         catch (const proto::bad_args& e) { ans = std::string("bad-args"); }
         catch (const std::exception& e) { ans = std::string("exception:") + e.what(); for (auto& c: ans) if (c==' '||c=='\n') c='_'; }
+#ifdef PROTO_VERIF_EVENTS
+        { std::string ev; for (int k=0;k<8;k++) if (proto::g_events[k]) { ev += (ev.empty()?"":",") + std::to_string(k) + ":" + std::to_string(proto::g_events[k]); }
+          if (!ev.empty()) ans += " events=" + ev; }
+#endif
         std::cout << ans << "\n" << std::flush;
     }
     return 0;
